@@ -696,7 +696,7 @@ Qed.
    deletions all failed and it stays related to the shadow state before them *)
 Definition Rd (X : list fname) (ns : list fname) (ec0 e' ec' : env) : Prop :=
   R (rems ns X) e' ec' \/
-  (exists ecp, R X e' ecp /\ ec' = delete_files ns ecp /\ aext ec0 ecp).
+  (exists ecp, R X e' ecp /\ ec' = delete_files ns ecp /\ aext ec0 ecp /\ e_fault e' <> None).
 
 Lemma Rd_nil X ec0 e' ec' : Rd X [] ec0 e' ec' -> R X e' ec'.
 Proof. intros [H|(ecp & H & -> & _)]; exact H. Qed.
@@ -705,16 +705,17 @@ Proof. intros H. left. exact H. Qed.
 
 Lemma Rd_shift X ns ec0 ec1 e' ec' : aext ec0 ec1 -> Rd X ns ec1 e' ec' -> Rd X ns ec0 e' ec'.
 Proof.
-  intros Ha [H|(ecp & H & E & A)]; [left; exact H|right]. exists ecp. split; [exact H|]. split; [exact E|].
-  eapply aext_trans; eauto.
+  intros Ha [H|(ecp & H & E & A & F)]; [left; exact H|right]. exists ecp. split; [exact H|]. split; [exact E|].
+  split; [eapply aext_trans; eauto|exact F].
 Qed.
 
 Lemma delete_files_Rd X ns e ec ec0 : R X e ec -> aext ec0 ec ->
   Rd X ns ec0 (delete_files ns e) (delete_files ns ec) /\ e_fault (delete_files ns e) = e_fault e.
 Proof.
   intros HR Ha. destruct (delete_files_lock ns X e ec HR) as (_ & _ & _ & A & B). split; [|exact A].
-  destruct (del_fails e).
-  - right. exists ec. split; [|auto]. split; [|apply HR]. rewrite B. apply HR.
+  destruct (del_fails e) eqn:Ed.
+  - right. exists ec. split; [split; [|apply HR]; rewrite B; apply HR|]. split; [reflexivity|]. split; [exact Ha|].
+    rewrite A. unfold del_fails, armed in Ed. destruct (e_fault e); [discriminate|discriminate].
   - left. exact B.
 Qed.
 
